@@ -1127,3 +1127,20 @@ Proof.
   - apply (R k m L).
   - intros k' m' L'. rewrite E in L'. discriminate.
 Qed.
+
+
+(* ---- D07: over TCP every query that decodes is answered --------------------------------- *)
+Lemma tcp_always_answered mac c st t_ns t_ins t_s client port local b u id eo st' out qs q :
+  decode b = Ok q ->
+  dns_step mac c st t_ns t_ins t_s client port local true b u id eo = Ok (st', out, qs) ->
+  exists bytes, out = Some bytes.
+Proof.
+  intros D H. unfold dns_step in H. rewrite D in H.
+  destruct (front c client port q) as [rt|x|k]; cbn [obind] in H; try discriminate H.
+  match type of H with
+  | (do staged <- ?S ; _) = _ => destruct S as [[[[reply c'] store'] qs']|x|k]; cbn [obind] in H; try discriminate H
+  end.
+  destruct (wire_bytes q true reply) as [bytes|x|k]; cbn [obind] in H; try discriminate H.
+  unfold limiter_stage in H. cbn [obind fst snd] in H.
+  inversion H; subst. exists bytes. reflexivity.
+Qed.
